@@ -438,6 +438,9 @@ pub fn expr_to_source_with_scope(
             return_expr,
         } => {
             let mut result = "do {".to_string();
+            // A statement `name = value` binds `name` for the rest of the block, shadowing a
+            // captured value of the same name: from there on the name must not be inlined
+            let mut block_scope = std::borrow::Cow::Borrowed(scope);
             for (i, stmt) in statements.iter().enumerate() {
                 // Leading comments
                 for comment in &stmt.leading {
@@ -446,8 +449,16 @@ pub fn expr_to_source_with_scope(
                 // Expression
                 result.push_str(&format!(
                     "\n  {}",
-                    protect_leading_minus(expr_to_source_with_scope(&stmt.node, scope), i == 0)
+                    protect_leading_minus(
+                        expr_to_source_with_scope(&stmt.node, &block_scope),
+                        i == 0
+                    )
                 ));
+                if let Expr::Assignment { ident, .. } = &stmt.node.node
+                    && block_scope.contains_key(ident)
+                {
+                    block_scope.to_mut().shift_remove(ident);
+                }
                 // Trailing comment
                 if let Some(trailing) = &stmt.trailing {
                     result.push_str(&format!("  {}", trailing));
@@ -459,7 +470,7 @@ pub fn expr_to_source_with_scope(
             }
             result.push_str(&format!(
                 "\n  return {}",
-                expr_to_source_with_scope(&return_expr.node, scope)
+                expr_to_source_with_scope(&return_expr.node, &block_scope)
             ));
             result.push_str("\n}");
             result
